@@ -45,9 +45,32 @@ def main():
                     open(p, "w").write(t.replace(seedwt, wt))
         if os.path.exists(os.path.join(demo, "go.mod")):
             shutil.copy(os.path.join(wt, "go.sum"), os.path.join(demo, "go.sum"))
-        democmd = "go test -vet=off -count=1 ./... 2>&1 | tail -40"
+        inpkg = None
+        if not os.path.exists(os.path.join(demo, "go.mod")):
+            # in-package demonstration: *_test.go files are copied into the package they
+            # declare (removed again afterwards) and run with go test -run on that package
+            tests = [f for f in os.listdir(demo) if f.endswith("_test.go")]
+            assert tests, "demo has neither go.mod nor *_test.go"
+            pkgname = re.search(r"^package (\w+)", open(os.path.join(demo, tests[0])).read(), re.M).group(1)
+            cands = {"tars": "tars", "transport": "tars/transport", "codec": "tars/protocol/codec", "rogger": "tars/util/rogger", "gpool": "tars/util/gpool", "conf": "tars/util/conf", "endpoint": "tars/util/endpoint"}
+            inpkg = (cands[pkgname.replace("_test", "")], tests)
+
+        def rundemo():
+            if inpkg is None:
+                return sh("go test -vet=off -count=1 ./...", cwd=demo)
+            d, tests = inpkg
+            for f in tests:
+                shutil.copy(os.path.join(demo, f), os.path.join(wt, d, f))
+            try:
+                names = []
+                for f in tests:
+                    names += re.findall(r"^func (Test\w+)\(", open(os.path.join(demo, f)).read(), re.M)
+                return sh("go test -vet=off -count=1 -run '^(%s)$' ./%s/" % ("|".join(names), d), cwd=wt)
+            finally:
+                for f in tests:
+                    os.remove(os.path.join(wt, d, f))
         # --- without the patch
-        rc0, out0 = sh("go test -vet=off -count=1 ./...", cwd=demo)
+        rc0, out0 = rundemo()
         res["demo_without_patch"] = "pass" if rc0 == 0 else "FAIL"
         # --- with the patch
         rc, out = sh("git apply %s/patch.diff" % src, cwd=wt)
@@ -63,7 +86,7 @@ def main():
         # the baseline's always-failing consistenthash subtest is not ours to count
         fails = [l for l in fails if "consistenthash" not in l and "TestKetamaHashAlg_Hash" not in l and l.strip() != "FAIL"]
         res["existing_tests_with_patch"] = "pass" if not fails else "FAIL: " + "; ".join(fails)
-        rc1, out1 = sh("go test -vet=off -count=1 ./...", cwd=demo)
+        rc1, out1 = rundemo()
         res["demo_with_patch"] = "fail" if rc1 != 0 else "PASSES(!)"
         res["demo_output_with_patch_tail"] = out1[-1500:]
         # --- our checks against the patched tree
